@@ -6,5 +6,5 @@ Extraction Language OCaml.
 Set Extraction Optimize.
 Extraction "model.ml"
   Z.add Z.mul Z.opp Z.div_eucl Z.of_nat Z.to_nat Z.compare Z.eqb
-  construct_spanner spanner_weights dijkstra approx_run approx_sva_signed_Z approx_sva_given
+  construct_spanner spanner_weights merge_scan dijkstra approx_run approx_sva_signed_Z approx_sva_given
   approx_sva_fvs_trees_Z approx_run_tbb approx_sva_signed_tbb_Z approx_sva_given_tbb.
